@@ -620,6 +620,7 @@ type harness struct {
 	seen    map[[32]byte]bool
 	current string
 	nsample int
+	ncanon  int
 }
 
 func (h *harness) noteCurrent(doc []byte) {
@@ -820,6 +821,11 @@ func (h *harness) addNum(t intType, isNum bool, text string, denotes *big.Int, c
 	}
 	if gen == "canonical" {
 		h.nsample++
+		h.ncanon++
+		if h.ncanon%12 == 0 {
+			// the same document through the full model as well
+			h.addDoc(doc, "num-as-doc")
+		}
 	}
 	return c, dig
 }
